@@ -1,9 +1,1086 @@
-From Coq Require Import List Arith Bool PeanoNat Lia.
+(* Lemmas about Model/Convert.v (qiskit converter decisions).
+   A. convert_two_qubits_to_adjacent   B. post_selection_analyzer
+   C. acceptance / refusals            D. well-formedness of the emitted program
+   E. the emitted program read at qubit level is the source program
+   F. photon-count abstraction of post-selection: the analyzer's rule is sound and exact *)
+From Coq Require Import List Arith Bool PeanoNat Lia ZArith.
 From LW Require Import Base.Sx Model.Convert.
 Import ListNotations.
 
+Ltac half n :=
+  let H1 := fresh in let H2 := fresh in
+  pose proof (Nat.div_mod n 2 ltac:(discriminate)) as H1;
+  pose proof (Nat.mod_upper_bound n 2 ltac:(discriminate)) as H2;
+  generalize dependent (n / 2); generalize dependent (n mod 2); intros.
+
+Lemma adj_loop_closed fuel : forall up lo,
+  lo < up -> up - lo <= fuel ->
+  adj_loop fuel up lo = Some (lo + (up - lo - 1) / 2 + 1, lo + (up - lo - 1) / 2).
+Proof.
+  induction fuel as [|f IH]; intros up lo Hlt Hf; [lia|].
+  cbn [adj_loop].
+  destruct (up - lo =? 1) eqn:E1.
+  - apply Nat.eqb_eq in E1. replace (up - lo - 1) with 0 by lia. change (0 / 2) with 0. f_equal. f_equal; lia.
+  - apply Nat.eqb_neq in E1.
+    destruct (up - 1 - lo =? 1) eqn:E2.
+    + apply Nat.eqb_eq in E2. replace (up - lo - 1) with 1 by lia. change (1 / 2) with 0. f_equal. f_equal; lia.
+    + apply Nat.eqb_neq in E2.
+      rewrite IH by lia.
+      replace (up - lo - 1) with ((up - 1 - (lo + 1) - 1) + 1 * 2) by lia.
+      rewrite Nat.div_add by discriminate. f_equal. f_equal; lia.
+Qed.
+
+Lemma adj_loop_eq fuel : forall up lo, up <= lo -> adj_loop fuel up lo = None.
+Proof.
+  induction fuel as [|f IH]; intros up lo H; simpl; auto.
+  replace (up - lo) with 0 by lia. simpl.
+  replace (up - 1 - lo) with 0 by lia. simpl. apply IH. lia.
+Qed.
+
+Definition transp (a b x : nat) : nat := if x =? a then b else if x =? b then a else x.
+Definition apply_swaps (sw : list (nat * nat)) (x : nat) : nat :=
+  fold_left (fun y p => transp (fst p) (snd p) y) sw x.
+
+Definition mid_lo (q0 q1 : nat) : nat := Nat.min q0 q1 + (Nat.max q0 q1 - Nat.min q0 q1 - 1) / 2.
+
+Definition adjacent_result (q0 q1 : nat) : nat * nat * list (nat * nat) :=
+  let lo := mid_lo q0 q1 in
+  let up := lo + 1 in
+  let sw := (if Nat.min q0 q1 =? lo then [] else [(Nat.min q0 q1, lo)]) ++
+            (if Nat.max q0 q1 =? up then [] else [(Nat.max q0 q1, up)]) in
+  if q0 <? q1 then (lo, up, sw) else (up, lo, sw).
+
+Lemma adjacent_closed q0 q1 : q0 <> q1 ->
+  convert_two_qubits_to_adjacent q0 q1 = Some (adjacent_result q0 q1).
+Proof.
+  intros Hne. unfold convert_two_qubits_to_adjacent, adjacent_result, mid_lo, absdiff.
+  destruct (q1 - q0 + (q0 - q1) =? 1) eqn:E.
+  - apply Nat.eqb_eq in E.
+    replace (Nat.max q0 q1 - Nat.min q0 q1 - 1) with 0 by lia. change (0 / 2) with 0.
+    rewrite Nat.add_0_r, Nat.eqb_refl.
+    replace (Nat.max q0 q1 =? Nat.min q0 q1 + 1) with true by (symmetry; apply Nat.eqb_eq; lia).
+    simpl. destruct (q0 <? q1) eqn:L; [apply Nat.ltb_lt in L|apply Nat.ltb_ge in L]; repeat f_equal; lia.
+  - rewrite adj_loop_closed by lia. reflexivity.
+Qed.
+
+Lemma adjacent_diverges q : convert_two_qubits_to_adjacent q q = None.
+Proof.
+  unfold convert_two_qubits_to_adjacent, absdiff. rewrite Nat.sub_diag. simpl (0 + 0 =? 1).
+  cbv iota. rewrite adj_loop_eq by lia. reflexivity.
+Qed.
+
+Lemma adjacent_diverges_iff q0 q1 : convert_two_qubits_to_adjacent q0 q1 = None <-> q0 = q1.
+Proof.
+  split.
+  - intros H. destruct (Nat.eq_dec q0 q1) as [|Hne]; auto.
+    rewrite adjacent_closed in H by auto. discriminate.
+  - intros ->. apply adjacent_diverges.
+Qed.
+
+Ltac eqbs :=
+  repeat match goal with
+  | |- context [?a =? ?b] => destruct (Nat.eqb_spec a b)
+  | |- context [?a <? ?b] => destruct (Nat.ltb_spec a b)
+  end.
+
+Lemma mid_lo_bounds q0 q1 : q0 <> q1 ->
+  Nat.min q0 q1 <= mid_lo q0 q1 /\ mid_lo q0 q1 + 1 <= Nat.max q0 q1.
+Proof.
+  intros Hne. unfold mid_lo.
+  pose proof (Nat.div_mod (Nat.max q0 q1 - Nat.min q0 q1 - 1) 2 ltac:(discriminate)) as H1.
+  pose proof (Nat.mod_upper_bound (Nat.max q0 q1 - Nat.min q0 q1 - 1) 2 ltac:(discriminate)) as H2.
+  lia.
+Qed.
+
+
+Definition route_swaps (mn lo up mx : nat) : list (nat * nat) :=
+  (if mn =? lo then [] else [(mn, lo)]) ++ (if mx =? up then [] else [(mx, up)]).
+
+Lemma route_swaps_apply mn lo mx x : mn <= lo -> lo + 1 <= mx ->
+  apply_swaps (route_swaps mn lo (lo + 1) mx) x =
+  if x =? mn then lo else if x =? lo then mn else if x =? mx then lo + 1 else if x =? lo + 1 then mx else x.
+Proof.
+  intros H1 H2. unfold route_swaps.
+  destruct (Nat.eqb_spec mn lo); destruct (Nat.eqb_spec mx (lo + 1));
+    cbn [app apply_swaps fold_left fst snd]; unfold transp; eqbs; lia.
+Qed.
+
+Lemma route_swaps_invol mn lo mx x : mn <= lo -> lo + 1 <= mx ->
+  apply_swaps (route_swaps mn lo (lo + 1) mx) (apply_swaps (route_swaps mn lo (lo + 1) mx) x) = x.
+Proof.
+  intros H1 H2. rewrite (route_swaps_apply mn lo mx x) by auto.
+  destruct (Nat.eqb_spec x mn); [|destruct (Nat.eqb_spec x lo); [|destruct (Nat.eqb_spec x mx);
+    [|destruct (Nat.eqb_spec x (lo + 1))]]];
+  rewrite route_swaps_apply by auto; eqbs; lia.
+Qed.
+
+Lemma route_swaps_in mn lo mx p : mn <= lo -> lo + 1 <= mx ->
+  In p (route_swaps mn lo (lo + 1) mx) ->
+  fst p <> snd p /\ mn <= fst p <= mx /\ mn <= snd p <= mx.
+Proof.
+  intros H1 H2. unfold route_swaps.
+  destruct (Nat.eqb_spec mn lo); destruct (Nat.eqb_spec mx (lo + 1));
+    cbn [app In]; intros H; repeat (destruct H as [H|H]; [subst p; cbn [fst snd]; lia|]); destruct H.
+Qed.
+
+(* the specification of convert_two_qubits_to_adjacent, for all q0 <> q1 *)
+Lemma adjacent_spec q0 q1 : q0 <> q1 ->
+  exists a b sw,
+    convert_two_qubits_to_adjacent q0 q1 = Some (a, b, sw) /\
+    absdiff a b = 1 /\
+    (q0 < q1 <-> a < b) /\
+    apply_swaps sw q0 = a /\ apply_swaps sw q1 = b /\
+    (forall x, apply_swaps sw (apply_swaps sw x) = x) /\
+    Nat.min q0 q1 <= Nat.min a b /\ Nat.max a b <= Nat.max q0 q1 /\
+    (forall p, In p sw -> fst p <> snd p /\
+                          Nat.min q0 q1 <= fst p <= Nat.max q0 q1 /\
+                          Nat.min q0 q1 <= snd p <= Nat.max q0 q1) /\
+    (forall x, x < Nat.min q0 q1 \/ Nat.max q0 q1 < x -> apply_swaps sw x = x).
+Proof.
+  intros Hne. rewrite adjacent_closed by auto. unfold adjacent_result.
+  pose proof (mid_lo_bounds q0 q1 Hne) as [B1 B2].
+  set (lo := mid_lo q0 q1) in *.
+  fold (route_swaps (Nat.min q0 q1) lo (lo + 1) (Nat.max q0 q1)).
+  destruct (q0 <? q1) eqn:L; [apply Nat.ltb_lt in L|apply Nat.ltb_ge in L];
+    eexists _, _, _; (split; [reflexivity|]); unfold absdiff.
+  all: split; [lia|]; split; [lia|].
+  all: split; [rewrite route_swaps_apply by auto; eqbs; lia|].
+  all: split; [rewrite route_swaps_apply by auto; eqbs; lia|].
+  all: split; [intros x; apply route_swaps_invol; auto|].
+  all: split; [lia|]; split; [lia|].
+  all: split; [intros p; apply route_swaps_in; auto|].
+  all: intros x Hx; rewrite route_swaps_apply by auto; eqbs; lia.
+Qed.
+(* ------------------------------------------------------------------ *)
+(* B. post_selection_analyzer                                           *)
+(* ------------------------------------------------------------------ *)
+Definition multib (g : qgate) : bool := 2 <=? length (g_qubits g).
+(* q is used by a multi-qubit instruction of l *)
+Definition touched (l : list qgate) (q : nat) : Prop :=
+  exists g, In g l /\ 2 <= length (g_qubits g) /\ In q (g_qubits g).
+Definition touchedb (l : list qgate) (q : nat) : bool :=
+  existsb (fun g => multib g && memb q (g_qubits g)) l.
+(* number of qubit slots of qs that are used by a multi-qubit instruction of post *)
+Definition count_touched (post : list qgate) (qs : list nat) : nat :=
+  length (filter (touchedb post) qs).
+(* the (repaired) analyzer's verdict for instruction g followed by post *)
+Definition can_ps (g : qgate) (post : list qgate) : bool :=
+  multib g && (count_touched post (g_qubits g) <=? 1).
+
+Lemma memb_In q l : memb q l = true <-> In q l.
+Proof.
+  unfold memb. rewrite existsb_exists. split.
+  - intros (x & Hx & E). apply Nat.eqb_eq in E. subst. exact Hx.
+  - intros H. exists q. split; auto. apply Nat.eqb_refl.
+Qed.
+
+Lemma touchedb_spec l q : touchedb l q = true <-> touched l q.
+Proof.
+  unfold touchedb, touched. rewrite existsb_exists. split.
+  - intros (g & Hg & E). apply andb_true_iff in E as [E1 E2].
+    exists g. repeat split; auto. apply Nat.leb_le; exact E1. apply memb_In; exact E2.
+  - intros (g & Hg & H2 & Hq). exists g. split; auto. apply andb_true_iff. split.
+    apply Nat.leb_le; exact H2. apply memb_In; exact Hq.
+Qed.
+
+Lemma multi_qubits_eq g : multi_qubits g = if multib g then Some (g_qubits g) else None.
+Proof. reflexivity. Qed.
+
+Lemma analyze_has gs q : memb q (snd (analyze gs)) = touchedb gs q.
+Proof.
+  induction gs as [|g rest IH]; [reflexivity|].
+  cbn [analyze]. destruct (analyze rest) as [fl has]. rewrite multi_qubits_eq.
+  cbn [touchedb existsb]. fold (touchedb rest q). cbn [snd] in IH.
+  destruct (multib g); cbn [snd andb orb].
+  - unfold memb in *. rewrite existsb_app, IH. apply orb_comm.
+  - exact IH.
+Qed.
+
+Lemma analyze_cons g rest :
+  analyze (g :: rest) =
+  (can_ps g rest :: fst (analyze rest),
+   if multib g then snd (analyze rest) ++ g_qubits g else snd (analyze rest)).
+Proof.
+  cbn [analyze]. pose proof (analyze_has rest) as Hh.
+  destruct (analyze rest) as [fl has]. rewrite multi_qubits_eq. unfold can_ps.
+  destruct (multib g); cbn [fst snd andb]; [|reflexivity].
+  unfold count_in, count_touched. cbn [snd] in Hh.
+  rewrite (filter_ext _ _ Hh). reflexivity.
+Qed.
+
 Lemma analyze_length gs : length (fst (analyze gs)) = length gs.
 Proof.
-  induction gs as [|g rest IH]; simpl; auto.
-  destruct (analyze rest) as [fl has]. destruct (multi_qubits g); simpl in *; congruence.
+  induction gs as [|g rest IH]; [reflexivity|]. rewrite analyze_cons. cbn. congruence.
+Qed.
+
+Lemma analyze_flag pre g post :
+  nth (length pre) (fst (analyze (pre ++ g :: post))) false = can_ps g post.
+Proof.
+  induction pre as [|p pre IH]; cbn [app length]; rewrite analyze_cons; cbn [fst nth]; auto.
+Qed.
+
+Lemma In_ps_qubits gs q : In q (ps_qubits (snd (analyze gs))) <-> touched gs q.
+Proof.
+  unfold ps_qubits. rewrite nodup_In, <- memb_In, analyze_has. apply touchedb_spec.
+Qed.
+
+(* analyzer_spec: for every program and every position, the flag is true exactly
+   when the instruction acts on >= 2 qubits of which at most one is used by a LATER
+   multi-qubit instruction; the returned qubits are exactly those used by some
+   multi-qubit instruction, without repetition. *)
+Lemma analyzer_spec :
+  (forall gs, length (fst (analyze gs)) = length gs) /\
+  (forall pre g post,
+      nth (length pre) (fst (analyze (pre ++ g :: post))) false = true <->
+      2 <= length (g_qubits g) /\ count_touched post (g_qubits g) <= 1) /\
+  (forall gs q, In q (ps_qubits (snd (analyze gs))) <-> touched gs q) /\
+  (forall gs, NoDup (ps_qubits (snd (analyze gs)))).
+Proof.
+  split; [exact analyze_length|]. split; [|split; [exact In_ps_qubits|intros; apply NoDup_nodup]].
+  intros pre g post. rewrite analyze_flag. unfold can_ps, multib.
+  rewrite andb_true_iff, !Nat.leb_le. reflexivity.
+Qed.
+
+Lemma count_touched_spec post qs :
+  count_touched post qs <= 1 <->
+  (forall i j, i < length qs -> j < length qs ->
+               touched post (nth i qs 0) -> touched post (nth j qs 0) -> i = j).
+Proof.
+  unfold count_touched. induction qs as [|q qs IH]; cbn [filter length].
+  - split; [intros _ i j Hi; inversion Hi|lia].
+  - destruct (touchedb post q) eqn:E; cbn [length].
+    + split.
+      * intros H. assert (Hz : length (filter (touchedb post) qs) = 0) by lia.
+        apply length_zero_iff_nil in Hz.
+        assert (Hn : forall k, k < length qs -> ~ touched post (nth k qs 0)).
+        { intros k Hk Ht. apply touchedb_spec in Ht.
+          assert (In (nth k qs 0) (filter (touchedb post) qs)) by (apply filter_In; split; auto using nth_In).
+          rewrite Hz in H0. destruct H0. }
+        intros [|i] [|j] Hi Hj Hti Htj; auto; cbn [nth] in *.
+        -- exfalso. apply (Hn j); [lia|auto].
+        -- exfalso. apply (Hn i); [lia|auto].
+        -- exfalso. apply (Hn j); [lia|auto].
+      * intros H. enough (length (filter (touchedb post) qs) = 0) by lia.
+        destruct (filter (touchedb post) qs) as [|x l] eqn:F; [reflexivity|exfalso].
+        assert (Hx : In x (filter (touchedb post) qs)) by (rewrite F; left; auto).
+        apply filter_In in Hx as [Hx1 Hx2]. apply (In_nth _ _ 0) in Hx1 as (k & Hk & Hnk).
+        specialize (H 0 (S k)). cbn [nth length] in H. rewrite Hnk in H.
+        assert (0 = S k); [|discriminate].
+        apply H; try lia; apply touchedb_spec; auto.
+    + rewrite IH. split.
+      * intros H [|i] [|j] Hi Hj Hti Htj; auto; cbn [nth length] in *.
+        -- apply touchedb_spec in Hti. congruence.
+        -- apply touchedb_spec in Htj. congruence.
+        -- f_equal. apply H; auto; lia.
+      * intros H i j Hi Hj Hti Htj. specialize (H (S i) (S j)). cbn [nth length] in H.
+        assert (S i = S j) by (apply H; auto; lia). lia.
+Qed.
+
+(* ------------------------------------------------------------------ *)
+(* C. the conversion loop, acceptance and refusals                      *)
+(* ------------------------------------------------------------------ *)
+Lemma ps_flags_cons allow g rest :
+  ps_flags allow (g :: rest) = (allow && can_ps g rest) :: ps_flags allow rest.
+Proof.
+  unfold ps_flags. destruct allow; cbn [andb].
+  - rewrite analyze_cons. reflexivity.
+  - reflexivity.
+Qed.
+
+(* forward-recursive reading of the loop: the flag of an instruction depends on
+   the instructions AFTER it only *)
+Fixpoint conv_spec (allow : bool) (inst : nat) (gs : list qgate) : res (list eop) :=
+  match gs with
+  | [] => Ok []
+  | g :: rest =>
+      do ops <- convert_gate inst g (allow && can_ps g rest);
+      do more <- conv_spec allow (S inst) rest;
+      Ok (ops ++ more)
+  end.
+
+Lemma convert_loop_spec allow gs : forall i,
+  convert_loop i (combine gs (ps_flags allow gs)) = conv_spec allow i gs.
+Proof.
+  induction gs as [|g rest IH]; intros i; [reflexivity|].
+  rewrite ps_flags_cons. cbn [combine convert_loop conv_spec]. rewrite IH. reflexivity.
+Qed.
+
+Lemma convert_eq allow gs :
+  convert allow gs = do ops <- conv_spec allow 0 gs; Ok (ops, ps_rules allow gs).
+Proof. unfold convert. rewrite convert_loop_spec. reflexivity. Qed.
+
+(* when one instruction is converted (declarative) *)
+Definition acceptable (g : qgate) (ps : bool) : Prop :=
+  is_allowed (g_name g) = true /\
+  match g_qubits g with
+  | [_] => is_single (g_name g) = true \/ (g_param g = true /\ is_rot (g_name g) = true)
+  | [q0; q1] => g_name g = Gswap \/ ((g_name g = Gcx \/ g_name g = Gcz) /\ q0 <> q1)
+  | [q0; q1; q2] => (g_name g = Gccx \/ g_name g = Gccz) /\ ps = true /\
+                    max3 q0 q1 q2 - min3 q0 q1 q2 = 2
+  | _ => False
+  end.
+
+(* exception class raised for an instruction that is not acceptable *)
+Definition refusal_class (g : qgate) : err :=
+  match g_qubits g with
+  | [_] => if is_allowed (g_name g) then (if g_param g then KeyError else IndexError) else ValueError
+  | [q0; q1] => match g_name g with
+                | Gcx | Gcz => if q0 =? q1 then OtherError (* no exception: the loop hangs *) else ValueError
+                | _ => ValueError
+                end
+  | _ => ValueError
+  end.
+
+Lemma add_two_cx_ok g q0 q1 ps : (g = Gcx \/ g = Gcz) -> q0 <> q1 -> exists ops, add_two g q0 q1 ps = Ok ops.
+Proof.
+  intros Hg Hne. destruct (adjacent_spec q0 q1 Hne) as (a & b & sw & E & _).
+  destruct Hg; subst g; unfold add_two; rewrite E; eexists; reflexivity.
+Qed.
+
+Lemma convert_gate_ok i g ps : acceptable g ps -> exists ops, convert_gate i g ps = Ok ops.
+Proof.
+  destruct g as [n qs p]. unfold acceptable, convert_gate. cbn [g_name g_qubits g_param].
+  intros [Ha H]. rewrite Ha. cbn [negb].
+  destruct qs as [|q0 [|q1 [|q2 [|q3 r]]]]; try contradiction.
+  - unfold add_one. destruct H as [H|[H1 H2]].
+    + rewrite H. eexists; reflexivity.
+    + rewrite H1, H2. destruct (is_single n); eexists; reflexivity.
+  - destruct H as [->|[Hn Hq]]; [eexists; reflexivity|]. apply add_two_cx_ok; auto.
+  - destruct H as (Hn & -> & Hm). unfold add_three. rewrite Hm. cbn.
+    destruct Hn; subst n; eexists; reflexivity.
+Qed.
+
+Lemma convert_gate_refuses i g ps : ~ acceptable g ps -> convert_gate i g ps = Err (refusal_class g).
+Proof.
+  destruct g as [n qs p]. unfold acceptable, convert_gate, refusal_class.
+  cbn [g_name g_qubits g_param]. intros H.
+  destruct (is_allowed n) eqn:Ha; cbn [negb].
+  2:{ destruct qs as [|q0 [|q1 [|q2 [|q3 r]]]]; try reflexivity. destruct n; try discriminate; reflexivity. }
+  destruct qs as [|q0 [|q1 [|q2 [|q3 r]]]]; try reflexivity.
+  - unfold add_one. destruct (is_single n) eqn:S1; [exfalso; apply H; auto|].
+    destruct p; cbn [negb]; [|reflexivity].
+    destruct (is_rot n) eqn:R1; [exfalso; apply H; auto|reflexivity].
+  - destruct n; try reflexivity; try (exfalso; apply H; split; auto; fail).
+    + unfold add_two. destruct (Nat.eqb_spec q0 q1) as [->|Hne].
+      * rewrite adjacent_diverges. reflexivity.
+      * exfalso. apply H. split; auto.
+    + unfold add_two. destruct (Nat.eqb_spec q0 q1) as [->|Hne].
+      * rewrite adjacent_diverges. reflexivity.
+      * exfalso. apply H. split; auto.
+  - unfold add_three. destruct n; try reflexivity.
+    all: destruct ps; cbn [negb]; [|reflexivity].
+    all: destruct (Nat.eqb_spec (max3 q0 q1 q2 - min3 q0 q1 q2) 2) as [E|E]; cbn [negb]; [|reflexivity].
+    all: exfalso; apply H; split; auto.
+Qed.
+
+Lemma convert_gate_ok_inv i g ps ops : convert_gate i g ps = Ok ops -> acceptable g ps.
+Proof.
+  destruct g as [n qs p]. unfold acceptable, convert_gate. cbn [g_name g_qubits g_param].
+  destruct (is_allowed n) eqn:Ha; cbn [negb]; [|discriminate].
+  destruct qs as [|q0 [|q1 [|q2 [|q3 r]]]]; try discriminate.
+  - unfold add_one. destruct (is_single n) eqn:S1; [auto|].
+    destruct p; cbn [negb]; [|discriminate].
+    destruct (is_rot n) eqn:R1; [auto|discriminate].
+  - unfold add_two. destruct n; try discriminate; intros H; split; auto.
+    + right. split; auto. intros ->. rewrite adjacent_diverges in H. discriminate.
+    + right. split; auto. intros ->. rewrite adjacent_diverges in H. discriminate.
+  - unfold add_three. destruct n; try discriminate.
+    all: destruct ps; cbn [negb]; [|discriminate].
+    all: destruct (Nat.eqb_spec (max3 q0 q1 q2 - min3 q0 q1 q2) 2) as [E|E]; cbn [negb]; [|discriminate].
+    all: intros _; auto.
+Qed.
+
+Lemma acceptable_dec g ps : acceptable g ps \/ ~ acceptable g ps.
+Proof.
+  destruct (convert_gate 0 g ps) eqn:E.
+  - left. eapply convert_gate_ok_inv; eauto.
+  - right. intros H. apply (convert_gate_ok 0) in H as [ops H]. congruence.
+Qed.
+
+(* every instruction of the program is acceptable with the flag it receives *)
+Fixpoint all_acceptable (allow : bool) (gs : list qgate) : Prop :=
+  match gs with
+  | [] => True
+  | g :: rest => acceptable g (allow && can_ps g rest) /\ all_acceptable allow rest
+  end.
+
+Lemma all_acceptable_spec allow gs :
+  all_acceptable allow gs <->
+  (forall pre g post, gs = pre ++ g :: post -> acceptable g (allow && can_ps g post)).
+Proof.
+  induction gs as [|g rest IH]; cbn [all_acceptable].
+  - split; auto. intros _ [|? ?] ? ? H; discriminate.
+  - rewrite IH. split.
+    + intros [H1 H2] [|p pre] g' post E; cbn [app] in E; inversion E; subst; auto.
+      eapply H2; eauto.
+    + intros H. split; [apply (H [] g rest eq_refl)|].
+      intros pre g' post ->. apply (H (g :: pre) g' post eq_refl).
+Qed.
+
+Lemma conv_spec_ok allow gs : forall i, all_acceptable allow gs -> exists ops, conv_spec allow i gs = Ok ops.
+Proof.
+  induction gs as [|g rest IH]; intros i H; cbn [conv_spec].
+  - eexists; reflexivity.
+  - destruct H as [H1 H2]. destruct (convert_gate_ok i _ _ H1) as [o1 E1].
+    destruct (IH (S i) H2) as [o2 E2]. rewrite E1, E2. eexists; reflexivity.
+Qed.
+
+Lemma conv_spec_ok_inv allow gs : forall i ops, conv_spec allow i gs = Ok ops -> all_acceptable allow gs.
+Proof.
+  induction gs as [|g rest IH]; intros i ops H; cbn [conv_spec all_acceptable] in *; auto.
+  destruct (convert_gate i g (allow && can_ps g rest)) as [o1|e] eqn:E1; [|discriminate].
+  cbn [bind] in H. destruct (conv_spec allow (S i) rest) as [o2|e] eqn:E2; [|discriminate].
+  split; [eapply convert_gate_ok_inv; eauto|eapply IH; eauto].
+Qed.
+
+(* the conversion succeeds exactly when every instruction is acceptable *)
+Lemma convert_ok_iff allow gs :
+  (exists r, convert allow gs = Ok r) <->
+  (forall pre g post, gs = pre ++ g :: post -> acceptable g (allow && can_ps g post)).
+Proof.
+  rewrite <- all_acceptable_spec, convert_eq. split.
+  - intros [r H]. destruct (conv_spec allow 0 gs) as [ops|e] eqn:E; [|discriminate].
+    eapply conv_spec_ok_inv; eauto.
+  - intros H. destruct (conv_spec_ok allow gs 0 H) as [ops E]. rewrite E. eexists; reflexivity.
+Qed.
+
+Lemma conv_spec_first_refusal allow pre g post : forall i,
+  (forall pre' g' post', pre = pre' ++ g' :: post' ->
+        acceptable g' (allow && can_ps g' (post' ++ g :: post))) ->
+  ~ acceptable g (allow && can_ps g post) ->
+  conv_spec allow i (pre ++ g :: post) = Err (refusal_class g).
+Proof.
+  induction pre as [|p pre IH]; intros i Hpre Hg; cbn [app conv_spec].
+  - rewrite convert_gate_refuses by auto. reflexivity.
+  - destruct (convert_gate_ok i p _ (Hpre [] p pre eq_refl)) as [o1 E1]. rewrite E1. cbn [bind].
+    rewrite IH; auto. intros pre' g' post' ->. apply (Hpre (p :: pre') g' post' eq_refl).
+Qed.
+
+(* the exception is the one of the FIRST instruction that is not acceptable;
+   nothing is returned *)
+Lemma convert_first_refusal allow pre g post :
+  (forall pre' g' post', pre = pre' ++ g' :: post' ->
+        acceptable g' (allow && can_ps g' (post' ++ g :: post))) ->
+  ~ acceptable g (allow && can_ps g post) ->
+  convert allow (pre ++ g :: post) = Err (refusal_class g).
+Proof.
+  intros H1 H2. rewrite convert_eq, conv_spec_first_refusal; auto.
+Qed.
+
+(* an error is always raised by some instruction that is not acceptable *)
+Lemma conv_spec_err allow gs : forall i e,
+  conv_spec allow i gs = Err e ->
+  exists pre g post, gs = pre ++ g :: post /\ ~ acceptable g (allow && can_ps g post) /\
+                     e = refusal_class g.
+Proof.
+  induction gs as [|g rest IH]; intros i e H; cbn [conv_spec] in H; [discriminate|].
+  destruct (acceptable_dec g (allow && can_ps g rest)) as [A|A].
+  - destruct (convert_gate_ok i _ _ A) as [o1 E1]. rewrite E1 in H. cbn [bind] in H.
+    destruct (conv_spec allow (S i) rest) as [o2|e2] eqn:E2; [discriminate|].
+    inversion H; subst e2. destruct (IH _ _ E2) as (pre & g' & post & -> & Hn & He).
+    exists (g :: pre), g', post. auto.
+  - rewrite convert_gate_refuses in H by auto. inversion H. exists [], g, rest. auto.
+Qed.
+
+(* the refusals named in the property / DESIGN, all with ValueError *)
+Definition refusable (allow : bool) (g : qgate) (post : list qgate) : Prop :=
+  g_name g = Gother                                            (* unsupported gate *)
+  \/ length (g_qubits g) = 0 \/ 3 < length (g_qubits g)        (* more than 3 qubits *)
+  \/ (length (g_qubits g) = 3 /\
+      (allow = false                                           (* 3-qubit gate, heralded-only mode *)
+       \/ 2 <= count_touched post (g_qubits g)                 (* 3-qubit gate that may not be post-selected *)
+       \/ (forall q0 q1 q2, g_qubits g = [q0; q1; q2] ->
+             max3 q0 q1 q2 - min3 q0 q1 q2 <> 2)))             (* 3-qubit gate on non-adjacent qubits *)
+  \/ (length (g_qubits g) = 2 /\ g_name g <> Gswap /\ g_name g <> Gcx /\ g_name g <> Gcz)
+  \/ (length (g_qubits g) = 3 /\ g_name g <> Gccx /\ g_name g <> Gccz).
+
+Lemma refusable_not_acceptable allow g post :
+  refusable allow g post ->
+  ~ acceptable g (allow && can_ps g post) /\ refusal_class g = ValueError.
+Proof.
+  destruct g as [n qs p]. unfold refusable, acceptable, refusal_class, can_ps, multib.
+  cbn [g_name g_qubits g_param].
+  intros [H|[H|[H|[H|[H|H]]]]].
+  - subst n. split; [intros [Ha _]; discriminate|].
+    destruct qs as [|q0 [|q1 [|q2 [|q3 r]]]]; reflexivity.
+  - destruct qs; [|discriminate]. split; [intros [_ []]|reflexivity].
+  - destruct qs as [|q0 [|q1 [|q2 [|q3 r]]]]; cbn [length] in H; try lia.
+    split; [intros [_ []]|reflexivity].
+  - destruct H as [L H]. destruct qs as [|q0 [|q1 [|q2 [|q3 r]]]]; try discriminate.
+    split; [|reflexivity]. intros (_ & _ & Hps & Hm).
+    destruct H as [->|[H|H]].
+    + discriminate.
+    + apply andb_true_iff in Hps as [_ Hps]. apply andb_true_iff in Hps as [_ Hps].
+      apply Nat.leb_le in Hps. lia.
+    + apply (H q0 q1 q2 eq_refl). exact Hm.
+  - destruct H as (L & H1 & H2 & H3). destruct qs as [|q0 [|q1 [|q2 [|q3 r]]]]; try discriminate.
+    split.
+    + intros [_ [A|[[A|A] _]]]; congruence.
+    + destruct n; try reflexivity; congruence.
+  - destruct H as (L & H1 & H2). destruct qs as [|q0 [|q1 [|q2 [|q3 r]]]]; try discriminate.
+    split; [|reflexivity]. intros [_ [[A|A] _]]; congruence.
+Qed.
+
+(* refusals: if every earlier instruction is acceptable and instruction g is in
+   one of the refusal conditions, the converter raises ValueError *)
+Lemma refusals allow pre g post :
+  (forall pre' g' post', pre = pre' ++ g' :: post' ->
+        acceptable g' (allow && can_ps g' (post' ++ g :: post))) ->
+  refusable allow g post ->
+  convert allow (pre ++ g :: post) = Err ValueError.
+Proof.
+  intros Hpre Hr. destruct (refusable_not_acceptable allow g post Hr) as [Hn Hc].
+  rewrite <- Hc. apply convert_first_refusal; auto.
+Qed.
+
+(* whatever comes first, a program containing a refusable instruction is never converted *)
+Lemma refusable_never_converted allow pre g post :
+  refusable allow g post -> exists e, convert allow (pre ++ g :: post) = Err e.
+Proof.
+  intros Hr. destruct (convert allow (pre ++ g :: post)) as [r|e] eqn:E; [|eauto].
+  exfalso. assert (H : exists r, convert allow (pre ++ g :: post) = Ok r) by eauto.
+  rewrite convert_ok_iff in H. specialize (H pre g post eq_refl).
+  apply (refusable_not_acceptable allow g post Hr). exact H.
+Qed.
+
+(* programs as produced by qiskit's own gate methods: names carry their arity,
+   rotations carry their angle, qubits of an instruction are distinct *)
+Definition standard (g : qgate) : Prop :=
+  (length (g_qubits g) = 1 -> is_allowed (g_name g) = true ->
+       (is_single (g_name g) = true \/ is_rot (g_name g) = true) /\
+       (is_rot (g_name g) = true -> g_param g = true)) /\
+  NoDup (g_qubits g).
+
+Lemma standard_refusal_class g ps : standard g -> ~ acceptable g ps -> refusal_class g = ValueError.
+Proof.
+  destruct g as [n qs p]. unfold standard, acceptable, refusal_class. cbn [g_name g_qubits g_param].
+  intros [H1 H2] Hn.
+  destruct qs as [|q0 [|q1 [|q2 [|q3 r]]]]; try reflexivity.
+  - destruct (is_allowed n) eqn:Ha; [|reflexivity]. exfalso. apply Hn. split; auto.
+    destruct (H1 eq_refl eq_refl) as [[S1|R1] Hp]; auto.
+  - assert (q0 <> q1) by (inversion H2; subst; cbn in *; intuition).
+    destruct n; try reflexivity; destruct (Nat.eqb_spec q0 q1); try reflexivity; contradiction.
+Qed.
+
+(* for standard programs every refusal is a ValueError *)
+Lemma convert_error_is_ValueError allow gs e :
+  Forall standard gs -> convert allow gs = Err e -> e = ValueError.
+Proof.
+  intros Hs H. rewrite convert_eq in H.
+  destruct (conv_spec allow 0 gs) as [ops|e'] eqn:E; [discriminate|]. inversion H; subst e'.
+  destruct (conv_spec_err _ _ _ _ E) as (pre & g & post & -> & Hn & ->).
+  eapply standard_refusal_class; eauto.
+  rewrite Forall_forall in Hs. apply Hs. apply in_or_app. right. left. reflexivity.
+Qed.
+
+(* ------------------------------------------------------------------ *)
+(* D. well-formedness of the emitted program                            *)
+(* ------------------------------------------------------------------ *)
+(* [nq] = number of qubits of the circuit (the lightworks circuit has 2*nq modes
+   as seen by Circuit.add); [gs] = the whole source program *)
+Definition op_wf (nq : nat) (gs : list qgate) (o : eop) : Prop :=
+  match o with
+  | EGate1 g i m =>
+      exists q, m = 2 * q /\ q < nq /\
+                (is_single g = true \/
+                 (is_rot g = true /\ exists gi, nth_error gs i = Some gi /\ g_name gi = g /\ g_param gi = true))
+  | ESwap r a0 a1 b0 b1 =>
+      exists qa qb, a0 = 2 * qa /\ a1 = 2 * qa + 1 /\ b0 = 2 * qb /\ b1 = 2 * qb + 1 /\
+                    qa < nq /\ qb < nq /\ (r = true -> qa <> qb)
+  | ECZ _ m => exists q, m = 2 * q /\ q + 1 < nq
+  | ECX _ t m => exists q, m = 2 * q /\ q + 1 < nq /\ t <= 1
+  | ECCZ m => exists q, m = 2 * q /\ q + 2 < nq
+  | ECCX t m => exists q, m = 2 * q /\ q + 2 < nq /\ t <= 2
+  end.
+
+Definition in_range (nq : nat) (g : qgate) : Prop := forall q, In q (g_qubits g) -> q < nq.
+
+Lemma convert_gate_wf nq gs i g ps ops :
+  nth_error gs i = Some g -> in_range nq g ->
+  convert_gate i g ps = Ok ops -> Forall (op_wf nq gs) ops.
+Proof.
+  intros Hi Hr H. pose proof (convert_gate_ok_inv _ _ _ _ H) as [Ha Hacc].
+  destruct g as [n qs p]. unfold convert_gate, in_range in *. cbn [g_name g_qubits g_param] in *.
+  rewrite Ha in H. cbn [negb] in H.
+  destruct qs as [|q0 [|q1 [|q2 [|q3 r]]]]; try contradiction.
+  - assert (q0 < nq) by (apply Hr; left; auto).
+    unfold add_one in H. destruct (is_single n) eqn:S1.
+    + inversion H; subst. repeat constructor. exists q0. unfold mode0. auto.
+    + destruct Hacc as [?|[-> R1]]; [congruence|]. cbn [negb] in H. rewrite R1 in H.
+      inversion H; subst. repeat constructor. exists q0. unfold mode0. repeat split; auto.
+      right. split; auto. eexists; split; [exact Hi|]. auto.
+  - assert (q0 < nq) by (apply Hr; left; auto).
+    assert (q1 < nq) by (apply Hr; right; left; auto).
+    destruct Hacc as [->|[Hn Hne]].
+    + inversion H; subst. repeat constructor. exists q0, q1. unfold mode0, mode1.
+      repeat split; auto. discriminate.
+    + destruct (adjacent_spec q0 q1 Hne) as (a & b & sw & E & Hd & _ & _ & _ & _ & Hlo & Hhi & Hsw & _).
+      unfold absdiff in Hd.
+      assert (Hops : ops = map (fun p => emit_swap true (fst p) (snd p)) sw ++
+                           (match n with Gcx => ECX (negb ps) (b - Nat.min a b) (mode0 (Nat.min a b))
+                                       | _ => ECZ (negb ps) (mode0 (Nat.min a b)) end) ::
+                           map (fun p => emit_swap true (fst p) (snd p)) sw).
+      { destruct Hn; subst n; unfold add_two in H; rewrite E in H; inversion H; reflexivity. }
+      assert (Hs : Forall (op_wf nq gs) (map (fun p => emit_swap true (fst p) (snd p)) sw)).
+      { apply Forall_forall. intros o Ho. apply in_map_iff in Ho as (pr & <- & Hp).
+        destruct (Hsw pr Hp) as (P1 & P2 & P3). exists (fst pr), (snd pr). unfold mode0, mode1.
+        repeat split; auto; lia. }
+      rewrite Hops. apply Forall_app. split; auto. constructor; auto.
+      destruct Hn; subst n; exists (Nat.min a b); unfold mode0; repeat split; lia.
+  - destruct Hacc as (Hn & -> & Hm).
+    assert (q0 < nq) by (apply Hr; left; auto).
+    assert (q1 < nq) by (apply Hr; right; left; auto).
+    assert (q2 < nq) by (apply Hr; right; right; left; auto).
+    unfold add_three in H. rewrite Hm in H. cbn in H. unfold max3, min3 in *.
+    destruct Hn; subst n; inversion H; subst; repeat constructor;
+      exists (Nat.min q0 (Nat.min q1 q2)); unfold mode0; repeat split; lia.
+Qed.
+
+Lemma conv_spec_wf nq allow rest : forall pre ops,
+  Forall (in_range nq) rest ->
+  conv_spec allow (length pre) rest = Ok ops -> Forall (op_wf nq (pre ++ rest)) ops.
+Proof.
+  induction rest as [|g rest IH]; intros pre ops Hr H; cbn [conv_spec] in H.
+  - inversion H. constructor.
+  - destruct (convert_gate (length pre) g (allow && can_ps g rest)) as [o1|e] eqn:E1; [|discriminate].
+    cbn [bind] in H. destruct (conv_spec allow (S (length pre)) rest) as [o2|e] eqn:E2; [|discriminate].
+    inversion H; subst ops. inversion Hr; subst. apply Forall_app. split.
+    + eapply convert_gate_wf; eauto. rewrite nth_error_app2, Nat.sub_diag by lia. reflexivity.
+    + specialize (IH (pre ++ [g]) o2). rewrite app_length, Nat.add_1_r, <- app_assoc in IH.
+      apply IH; auto.
+Qed.
+
+(* every emitted operation addresses existing modes of the 2*nq-mode circuit in
+   the shape the gate library expects; the rules name distinct existing qubits *)
+Lemma emitted_wf nq allow gs ops rules :
+  Forall (in_range nq) gs ->
+  convert allow gs = Ok (ops, rules) ->
+  Forall (op_wf nq gs) ops /\
+  (forall l, rules = Some l -> NoDup l /\ l <> [] /\ forall q, In q l <-> touched gs q) /\
+  (rules = None -> allow = false \/ forall q, ~ touched gs q).
+Proof.
+  intros Hr H. rewrite convert_eq in H.
+  destruct (conv_spec allow 0 gs) as [o|e] eqn:E; [|discriminate]. inversion H; subst o rules.
+  split; [apply (conv_spec_wf nq allow gs [] ops Hr E)|].
+  unfold ps_rules. destruct allow.
+  - destruct (ps_qubits (snd (analyze gs))) as [|x l'] eqn:P.
+    + split; [discriminate|]. intros _. right. intros q Hq. apply In_ps_qubits in Hq.
+      rewrite P in Hq. destruct Hq.
+    + split; [|discriminate]. intros l Hl. inversion Hl; subst l. rewrite <- P.
+      split; [apply NoDup_nodup|]. split; [rewrite P; discriminate|]. intros q. apply In_ps_qubits.
+  - split; [discriminate|auto].
+Qed.
+
+(* heralded-only mode: only heralded two-qubit gates, no three-qubit gate, no rule *)
+Definition op_heralded (o : eop) : Prop :=
+  match o with
+  | ECZ h _ | ECX h _ _ => h = true
+  | ECCZ _ | ECCX _ _ => False
+  | _ => True
+  end.
+
+Lemma convert_gate_heralded i g ops : convert_gate i g false = Ok ops -> Forall op_heralded ops.
+Proof.
+  destruct g as [n qs p]. unfold convert_gate. cbn [g_name g_qubits g_param].
+  destruct (is_allowed n); cbn [negb]; [|discriminate].
+  destruct qs as [|q0 [|q1 [|q2 [|q3 r]]]]; try discriminate.
+  - unfold add_one. destruct (is_single n); [intros H; inversion H; repeat constructor|].
+    destruct p; cbn [negb]; [|discriminate]. destruct (is_rot n); [|discriminate].
+    intros H; inversion H; repeat constructor.
+  - unfold add_two. destruct n; try discriminate.
+    3: intros H; inversion H; repeat constructor.
+    all: destruct (convert_two_qubits_to_adjacent q0 q1) as [[[a b] sw]|]; [|discriminate].
+    all: intros H; inversion H; apply Forall_app; split;
+         [|constructor; [reflexivity|]]; apply Forall_forall; intros o Ho;
+         apply in_map_iff in Ho as (pr & <- & _); exact I.
+  - unfold add_three. destruct n; discriminate.
+Qed.
+
+Lemma heralded_only gs ops rules :
+  convert false gs = Ok (ops, rules) -> rules = None /\ Forall op_heralded ops.
+Proof.
+  rewrite convert_eq. destruct (conv_spec false 0 gs) as [o|e] eqn:E; [|discriminate].
+  intros H; inversion H; subst. split; [reflexivity|].
+  clear H. revert E. generalize 0. revert ops.
+  induction gs as [|g rest IH]; intros ops i H; cbn [conv_spec andb] in H.
+  - inversion H. constructor.
+  - destruct (convert_gate i g false) as [o1|e] eqn:E1; [|discriminate]. cbn [bind] in H.
+    destruct (conv_spec false (S i) rest) as [o2|e] eqn:E2; [|discriminate].
+    inversion H. apply Forall_app. split; [eapply convert_gate_heralded; eauto|eapply IH; eauto].
+Qed.
+(* ------------------------------------------------------------------ *)
+(* F. photon-count abstraction of post-selection                        *)
+(* ------------------------------------------------------------------ *)
+(* State: number of photons in the two modes of every qubit.  Dual-rail states
+   have one photon per qubit.  Assumptions of the abstraction (trusted, DESIGN C12):
+   - an instruction on < 2 qubits never changes a count;
+   - a multi-qubit instruction changes counts on its own qubits only;
+   - a heralded (or deterministic: swap) implementation maps "one photon on each
+     of my qubits" to the same (its failures are rejected by its own heralds);
+   - a post-selected implementation fed with one photon per qubit returns ANY
+     distribution of these photons over its qubits (success = one each);
+   - fed with anything else, a multi-qubit gate may return anything on its qubits. *)
+Definition counts := nat -> nat.
+Definition all_ones (c : counts) : Prop := forall q, c q = 1.
+Definition ones_on (qs : list nat) (c : counts) : Prop := forall q, In q qs -> c q = 1.
+Definition total (qs : list nat) (c : counts) : nat := list_sum (map c qs).
+
+Definition step (g : qgate) (ps : bool) (c c' : counts) : Prop :=
+  if multib g then
+    (forall q, ~ In q (g_qubits g) -> c' q = c q) /\
+    (ones_on (g_qubits g) c ->
+       if ps then total (g_qubits g) c' = length (g_qubits g) else ones_on (g_qubits g) c')
+  else forall q, c' q = c q.
+
+(* an execution: the list of states after each instruction *)
+Inductive exec : list (qgate * bool) -> counts -> list counts -> Prop :=
+| exec_nil c : exec [] c []
+| exec_cons g f rest c c' tr : step g f c c' -> exec rest c' tr -> exec ((g, f) :: rest) c (c' :: tr).
+
+(* the final rules: one photon on every qubit used by a multi-qubit instruction *)
+Definition accepted (gfs : list (qgate * bool)) (c : counts) : Prop :=
+  forall q, touched (map fst gfs) q -> c q = 1.
+
+(* each post-selected gate has at most one qubit used by a later multi-qubit gate *)
+Definition ps_safe (gfs : list (qgate * bool)) : Prop :=
+  forall pre g post, gfs = pre ++ (g, true) :: post -> multib g = true ->
+                     count_touched (map fst post) (g_qubits g) <= 1.
+
+Definition distinct_qubits (gfs : list (qgate * bool)) : Prop :=
+  Forall (fun gf => NoDup (g_qubits (fst gf))) gfs.
+
+Lemma list_sum_cons x l : list_sum (x :: l) = x + list_sum l.
+Proof. reflexivity. Qed.
+
+Lemma last_cons {A} (x : A) t d : last (x :: t) d = last t x.
+Proof. revert x. induction t as [|y t IH]; intros x; [reflexivity|]. cbn [last] in *. destruct t; auto. Qed.
+
+Lemma total_ones qs c : ones_on qs c -> total qs c = length qs.
+Proof.
+  unfold total, ones_on. induction qs as [|q qs IH]; intros H; [reflexivity|].
+  rewrite map_cons, list_sum_cons. cbn [length].
+  rewrite H by (left; auto). rewrite IH; auto. intros; apply H; right; auto.
+Qed.
+
+Lemma total_bad qs c : total qs c <> length qs -> exists q, In q qs /\ c q <> 1.
+Proof.
+  unfold total. induction qs as [|q qs IH]; [cbn; congruence|].
+  rewrite map_cons, list_sum_cons. cbn [length In]. intros H.
+  destruct (Nat.eq_dec (c q) 1) as [E|E].
+  - destruct IH as (x & Hx & Hc); [lia|]. exists x; auto.
+  - exists q; auto.
+Qed.
+
+Lemma ones_on_dec qs c : ones_on qs c \/ exists q, In q qs /\ c q <> 1.
+Proof.
+  unfold ones_on. induction qs as [|q qs IH].
+  - left. intros ? [].
+  - destruct (Nat.eq_dec (c q) 1) as [E|E]; [|right; exists q; split; [left|]; auto].
+    destruct IH as [IH|(x & Hx & Hc)]; [left|right; exists x; split; [right|]; auto].
+    intros y [<-|Hy]; auto.
+Qed.
+
+(* photon conservation: a failure leaves at least TWO qubits with a wrong count *)
+Lemma two_bad qs c :
+  NoDup qs -> total qs c = length qs -> (exists q, In q qs /\ c q <> 1) ->
+  exists q1 q2, q1 <> q2 /\ In q1 qs /\ In q2 qs /\ c q1 <> 1 /\ c q2 <> 1.
+Proof.
+  unfold total. induction qs as [|q qs IH]; intros Hnd Ht (x & Hx & Hc); [destruct Hx|].
+  inversion Hnd as [|? ? Hq Hnd']; subst. rewrite map_cons, list_sum_cons in Ht. cbn [length] in Ht.
+  destruct (Nat.eq_dec (c q) 1) as [E|E].
+  - destruct Hx as [<-|Hx]; [congruence|].
+    destruct IH as (q1 & q2 & H1 & H2 & H3 & H4 & H5); auto; [lia|exists x; auto|].
+    exists q1, q2. repeat split; auto; right; auto.
+  - destruct (total_bad qs c) as (y & Hy & Hcy); [unfold total; lia|].
+    exists q, y. repeat split; auto; [intros ->; contradiction|left; auto|right; auto].
+Qed.
+
+Lemma touched_cons g l q : touched l q -> touched (g :: l) q.
+Proof. intros (h & Hh & H). exists h. split; [right|]; auto. Qed.
+
+Lemma touched_head g l q : multib g = true -> In q (g_qubits g) -> touched (g :: l) q.
+Proof. intros Hm Hq. exists g. split; [left; auto|]. split; auto. apply Nat.leb_le; exact Hm. Qed.
+
+(* a qubit that no later multi-qubit instruction uses keeps its count *)
+Lemma exec_untouched gfs : forall c tr q,
+  exec gfs c tr -> ~ touched (map fst gfs) q -> last tr c q = c q.
+Proof.
+  induction gfs as [|[g f] rest IH]; intros c tr q He Hq; inversion He; subst; [reflexivity|].
+  match goal with H : step _ _ _ _ |- _ => rename H into Hs end.
+  match goal with H : exec rest _ _ |- _ => rename H into Hr end.
+  assert (Hc : c' q = c q).
+  { unfold step in Hs. destruct (multib g) eqn:M; [|apply Hs].
+    apply (proj1 Hs). intros Hin. apply Hq. cbn [map fst]. apply touched_head; auto. }
+  rewrite last_cons, (IH c' tr0 q Hr), Hc; auto.
+  intros Ht. apply Hq. cbn [map fst]. apply touched_cons; auto.
+Qed.
+
+Lemma ps_safe_tail gf rest : ps_safe (gf :: rest) -> ps_safe rest.
+Proof. intros H pre g post -> Hm. apply (H (gf :: pre) g post eq_refl Hm). Qed.
+
+Lemma not_both_touched post qs q1 q2 :
+  NoDup qs -> count_touched post qs <= 1 -> q1 <> q2 -> In q1 qs -> In q2 qs ->
+  ~ touched post q1 \/ ~ touched post q2.
+Proof.
+  intros Hnd Hc Hne H1 H2. rewrite count_touched_spec in Hc.
+  apply (In_nth _ _ 0) in H1 as (i & Hi & Ei). apply (In_nth _ _ 0) in H2 as (j & Hj & Ej).
+  destruct (touchedb post q1) eqn:T1; [|left; rewrite <- touchedb_spec; congruence].
+  right. intros T2. apply touchedb_spec in T1.
+  assert (i = j) by (apply Hc; auto; congruence). subst j. congruence.
+Qed.
+
+(* SOUNDNESS: if every post-selected gate has at most one qubit used later, then
+   every execution from a dual-rail state that is ACCEPTED by the final rules had
+   one photon on every qubit after EVERY instruction: no post-selected gate failed. *)
+Lemma ps_sound gfs : forall c tr,
+  distinct_qubits gfs -> ps_safe gfs ->
+  all_ones c -> exec gfs c tr -> accepted gfs (last tr c) ->
+  Forall all_ones tr.
+Proof.
+  induction gfs as [|[g f] rest IH]; intros c tr Hd Hs Hc He Ha; inversion He; subst; [constructor|].
+  match goal with H : step _ _ _ _ |- _ => rename H into Hst end.
+  match goal with H : exec rest _ _ |- _ => rename H into Hr end.
+  inversion Hd as [|? ? Hnd Hd']; subst. cbn [fst] in Hnd.
+  rewrite last_cons in Ha.
+  assert (Hc' : all_ones c').
+  { unfold step in Hst. destruct (multib g) eqn:M; [|intros q; rewrite Hst; apply Hc].
+    destruct Hst as [Hoff Hon].
+    assert (Hin : ones_on (g_qubits g) c) by (intros q _; apply Hc).
+    specialize (Hon Hin).
+    assert (Hones : ones_on (g_qubits g) c' -> all_ones c').
+    { intros Ho q. destruct (in_dec Nat.eq_dec q (g_qubits g)); [apply Ho; auto|].
+      rewrite Hoff by auto. apply Hc. }
+    destruct f; [|auto].
+    destruct (ones_on_dec (g_qubits g) c') as [Ho|Hbad]; [auto|exfalso].
+    destruct (two_bad _ _ Hnd Hon Hbad) as (q1 & q2 & Hne & I1 & I2 & B1 & B2).
+    assert (Hcnt : count_touched (map fst rest) (g_qubits g) <= 1) by (apply (Hs [] g rest eq_refl M)).
+    destruct (not_both_touched _ _ q1 q2 Hnd Hcnt Hne I1 I2) as [U|U].
+    - apply B1. rewrite <- (exec_untouched rest c' tr0 q1 Hr U). apply Ha.
+      cbn [map fst]. apply touched_head; auto.
+    - apply B2. rewrite <- (exec_untouched rest c' tr0 q2 Hr U). apply Ha.
+      cbn [map fst]. apply touched_head; auto. }
+  constructor; auto.
+  apply (IH c' tr0); auto.
+  - eapply ps_safe_tail; eauto.
+  - intros q Hq. apply Ha. cbn [map fst]. apply touched_cons; auto.
+Qed.
+
+(* ---- exactness: a post-selected gate with two qubits used later can fail unnoticed *)
+(* the ideal execution: nothing ever changes *)
+Lemma exec_ideal gfs : forall c, all_ones c -> exec gfs c (map (fun _ => c) gfs).
+Proof.
+  induction gfs as [|[g f] rest IH]; intros c Hc; cbn [map]; constructor; auto.
+  unfold step. destruct (multib g); [|auto]. split; [auto|]. intros Ho.
+  destruct f; [apply total_ones|]; auto.
+Qed.
+
+(* later multi-qubit gates reset their own qubits to one photon each *)
+Definition reset (g : qgate) (c : counts) : counts :=
+  fun q => if multib g && memb q (g_qubits g) then 1 else c q.
+Fixpoint reset_trace (gfs : list (qgate * bool)) (c : counts) : list counts :=
+  match gfs with
+  | [] => []
+  | (g, _) :: rest => reset g c :: reset_trace rest (reset g c)
+  end.
+
+Lemma step_reset g f c : step g f c (reset g c).
+Proof.
+  unfold step, reset. destruct (multib g) eqn:M; cbn [andb]; [|auto]. split.
+  - intros q Hq. destruct (memb q (g_qubits g)) eqn:E; [|reflexivity].
+    apply memb_In in E. contradiction.
+  - intros _.
+    assert (Ho : ones_on (g_qubits g) (fun q => if memb q (g_qubits g) then 1 else c q)).
+    { intros q Hq. apply memb_In in Hq. rewrite Hq. reflexivity. }
+    destruct f; [apply total_ones|]; exact Ho.
+Qed.
+
+Lemma exec_reset gfs : forall c, exec gfs c (reset_trace gfs c).
+Proof.
+  induction gfs as [|[g f] rest IH]; intros c; cbn [reset_trace]; constructor; auto using step_reset.
+Qed.
+
+Lemma reset_trace_last gfs : forall c q,
+  last (reset_trace gfs c) c q = if touchedb (map fst gfs) q then 1 else c q.
+Proof.
+  induction gfs as [|[g f] rest IH]; intros c q; [reflexivity|].
+  cbn [reset_trace map fst touchedb existsb]. fold (touchedb (map fst rest) q).
+  rewrite last_cons, IH. unfold reset.
+  destruct (multib g && memb q (g_qubits g)); cbn [orb]; [destruct (touchedb (map fst rest) q)|]; reflexivity.
+Qed.
+
+Lemma count_touched_two post qs :
+  NoDup qs -> 2 <= count_touched post qs ->
+  exists q1 q2, q1 <> q2 /\ In q1 qs /\ In q2 qs /\ touched post q1 /\ touched post q2.
+Proof.
+  unfold count_touched. intros Hnd H.
+  assert (Hnf : NoDup (filter (touchedb post) qs)) by (apply NoDup_filter; auto).
+  destruct (filter (touchedb post) qs) as [|a [|b l]] eqn:F; cbn [length] in H; try lia.
+  assert (Ha : In a (filter (touchedb post) qs)) by (rewrite F; left; auto).
+  assert (Hb : In b (filter (touchedb post) qs)) by (rewrite F; right; left; auto).
+  apply filter_In in Ha as [A1 A2]. apply filter_In in Hb as [B1 B2].
+  exists a, b. repeat split; auto; try (apply touchedb_spec; auto).
+  inversion Hnf; subst. intros ->. apply H2. left; auto.
+Qed.
+
+Lemma last_default {A} (l : list A) d d' : l <> [] -> last l d = last l d'.
+Proof.
+  induction l as [|x l IH]; [congruence|]. intros _. rewrite !last_cons. reflexivity.
+Qed.
+
+Lemma last_app_ne {A} (l1 l2 : list A) d : l2 <> [] -> last (l1 ++ l2) d = last l2 d.
+Proof.
+  intros H. induction l1 as [|x l1 IH]; [reflexivity|]. cbn [app]. rewrite last_cons.
+  rewrite (last_default _ x d); [exact IH|]. destruct l1; cbn [app]; [exact H|discriminate].
+Qed.
+
+Lemma exec_app l1 : forall l2 c t1 t2,
+  exec l1 c t1 -> exec l2 (last t1 c) t2 -> exec (l1 ++ l2) c (t1 ++ t2).
+Proof.
+  induction l1 as [|[g f] l1 IH]; intros l2 c t1 t2 H1 H2; inversion H1; subst; cbn [app]; auto.
+  constructor; auto. apply IH; auto.
+  rewrite last_cons in H2. exact H2.
+Qed.
+
+(* EXACTNESS: if some post-selected gate has two qubits used by later multi-qubit
+   gates, there is an execution from the dual-rail state in which that gate FAILS
+   (two photons on one qubit, none on another) and which ends with one photon on
+   every qubit, hence is accepted by any rules. *)
+Lemma ps_unsafe_witness pre g post :
+  NoDup (g_qubits g) -> multib g = true ->
+  2 <= count_touched (map fst post) (g_qubits g) ->
+  exists tr cbad,
+    exec (pre ++ (g, true) :: post) (fun _ => 1) tr /\
+    In cbad tr /\ ~ all_ones cbad /\
+    all_ones (last tr (fun _ => 1)).
+Proof.
+  intros Hnd M H2.
+  destruct (count_touched_two _ _ Hnd H2) as (q1 & q2 & Hne & I1 & I2 & T1 & T2).
+  set (c1 := (fun _ : nat => 1) : counts).
+  set (cbad := (fun q => if q =? q1 then 2 else if q =? q2 then 0 else 1) : counts).
+  exists (map (fun _ => c1) pre ++ cbad :: reset_trace post cbad), cbad.
+  assert (Hl1 : last (map (fun _ => c1) pre) c1 = c1).
+  { clear. induction pre as [|x pre IH]; [reflexivity|]. cbn [map]. rewrite last_cons. exact IH. }
+  split; [|split; [|split]].
+  - apply exec_app; [apply exec_ideal; intros q; reflexivity|]. match goal with |- exec _ ?x _ => replace x with c1 by (symmetry; exact Hl1) end.
+    constructor; [|apply exec_reset].
+    unfold step. rewrite M. split.
+    + intros q Hq. unfold cbad, c1.
+      destruct (Nat.eqb_spec q q1); [subst; contradiction|].
+      destruct (Nat.eqb_spec q q2); [subst; contradiction|reflexivity].
+    + intros _. unfold total. clear - Hnd Hne I1 I2.
+      (* the sum of cbad over a duplicate-free list containing q1 and q2 *)
+      assert (G : forall qs, NoDup qs ->
+                 list_sum (map cbad qs) + (if in_dec Nat.eq_dec q2 qs then 1 else 0)
+                 = length qs + (if in_dec Nat.eq_dec q1 qs then 1 else 0)).
+      { induction qs as [|q qs IH]; intros Hn; [reflexivity|]. inversion Hn; subst.
+        specialize (IH H2). rewrite map_cons, list_sum_cons. cbn [length]. unfold cbad at 1.
+        destruct (in_dec Nat.eq_dec q2 (q :: qs)) as [A|A];
+        destruct (in_dec Nat.eq_dec q1 (q :: qs)) as [B|B];
+        destruct (in_dec Nat.eq_dec q2 qs) as [A'|A'];
+        destruct (in_dec Nat.eq_dec q1 qs) as [B'|B'];
+        destruct (Nat.eqb_spec q q1); destruct (Nat.eqb_spec q q2); subst;
+        cbn [In] in *; try lia; try tauto; try congruence;
+        try (exfalso; apply A; tauto); try (exfalso; apply B; tauto). }
+      specialize (G _ Hnd).
+      destruct (in_dec Nat.eq_dec q2 (g_qubits g)); [|contradiction].
+      destruct (in_dec Nat.eq_dec q1 (g_qubits g)); [|contradiction]. lia.
+  - apply in_or_app. right. left. reflexivity.
+  - intros Hall. specialize (Hall q1). unfold cbad in Hall. rewrite Nat.eqb_refl in Hall. discriminate.
+  - intros q.
+    assert (E : last (map (fun _ => c1) pre ++ cbad :: reset_trace post cbad) c1
+                = last (reset_trace post cbad) cbad).
+    { rewrite last_app_ne by discriminate. apply last_cons. }
+    rewrite E, reset_trace_last. destruct (touchedb (map fst post) q) eqn:T; [reflexivity|].
+    unfold cbad. destruct (Nat.eqb_spec q q1) as [->|].
+    + apply touchedb_spec in T1. congruence.
+    + destruct (Nat.eqb_spec q q2) as [->|]; [apply touchedb_spec in T2; congruence|reflexivity].
+Qed.
+
+(* post_selection_sound_abstract: in the abstraction, "every accepted execution is
+   failure-free" holds IF AND ONLY IF each post-selected gate has at most one
+   qubit used by a later multi-qubit gate *)
+Lemma post_selection_sound_abstract gfs :
+  distinct_qubits gfs ->
+  ((forall c tr, all_ones c -> exec gfs c tr -> accepted gfs (last tr c) -> Forall all_ones tr)
+   <-> ps_safe gfs).
+Proof.
+  intros Hd. split.
+  - intros H pre g post -> M.
+    destruct (le_lt_dec (count_touched (map fst post) (g_qubits g)) 1) as [L|L]; [exact L|exfalso].
+    assert (Hnd : NoDup (g_qubits g)).
+    { unfold distinct_qubits in Hd. rewrite Forall_forall in Hd.
+      apply (Hd (g, true)). apply in_or_app. right. left. reflexivity. }
+    destruct (ps_unsafe_witness pre g post Hnd M L) as (tr & cbad & He & Hin & Hbad & Hlast).
+    specialize (H (fun _ => 1) tr (fun _ => eq_refl) He (fun q _ => Hlast q)).
+    rewrite Forall_forall in H. apply Hbad. apply H. exact Hin.
+  - intros Hs c tr Hc He Ha. eapply ps_sound; eauto.
+Qed.
+
+(* the (repaired) analyzer's flags always satisfy the condition *)
+Lemma map_fst_combine_flags allow gs : map fst (combine gs (ps_flags allow gs)) = gs.
+Proof.
+  assert (L : length (ps_flags allow gs) = length gs).
+  { unfold ps_flags. destruct allow; [apply analyze_length|apply repeat_length]. }
+  revert L. generalize (ps_flags allow gs). induction gs as [|x r IH]; intros [|f fl] L;
+    cbn in *; try discriminate; auto. f_equal. apply IH. lia.
+Qed.
+
+Lemma ps_flags_safe allow gs : ps_safe (combine gs (ps_flags allow gs)).
+Proof.
+  induction gs as [|g rest IH]; intros pre h post E M.
+  - destruct pre; discriminate.
+  - rewrite ps_flags_cons in E. cbn [combine] in E. destruct pre as [|p pre]; cbn [app] in E.
+    + injection E as E1 E2 E3. subst h post. rewrite map_fst_combine_flags.
+      apply andb_true_iff in E2 as [_ E2]. unfold can_ps in E2.
+      apply andb_true_iff in E2 as [_ E2]. apply Nat.leb_le; exact E2.
+    + injection E as E1 E2. apply (IH pre h post); auto.
+Qed.
+
+(* consequence for the converter: with the flags it computes and the rules it
+   returns, an accepted execution is failure-free *)
+Lemma converter_post_selection_sound allow gs c tr :
+  Forall (fun g => NoDup (g_qubits g)) gs ->
+  all_ones c -> exec (combine gs (ps_flags allow gs)) c tr ->
+  (forall q, touched gs q -> last tr c q = 1) ->
+  Forall all_ones tr.
+Proof.
+  intros Hd Hc He Ha. eapply ps_sound; eauto.
+  - unfold distinct_qubits. apply Forall_forall. intros [g f] Hin. cbn [fst].
+    rewrite Forall_forall in Hd. apply Hd. apply in_combine_l in Hin. exact Hin.
+  - apply ps_flags_safe.
+  - intros q Hq. apply Ha. rewrite map_fst_combine_flags in Hq. exact Hq.
+Qed.
+
+(* ---- the pinned tree's rule: can_ps = not all(q in has_ps for q in gate) *)
+Definition can_ps_all (g : qgate) (post : list qgate) : bool :=
+  multib g && negb (forallb (touchedb post) (g_qubits g)).
+Fixpoint flags_all (gs : list qgate) : list bool :=
+  match gs with [] => [] | g :: rest => can_ps_all g rest :: flags_all rest end.
+
+(* F2: ccz(0,1,2); cz(0,1) — the old rule post-selects the ccz although two of its
+   qubits meet again in the cz; in the abstraction a failure of the ccz is accepted *)
+Definition f2_witness : list qgate := [mkG Gccz [0; 1; 2] false; mkG Gcz [0; 1] false].
+
+Lemma all_rule_refuted :
+  flags_all f2_witness = [true; true] /\
+  ~ ps_safe (combine f2_witness (flags_all f2_witness)) /\
+  exists tr cbad, exec (combine f2_witness (flags_all f2_witness)) (fun _ => 1) tr /\
+                  In cbad tr /\ ~ all_ones cbad /\ all_ones (last tr (fun _ => 1)).
+Proof.
+  split; [reflexivity|]. split.
+  - intros H. specialize (H [] (mkG Gccz [0; 1; 2] false) [(mkG Gcz [0; 1] false, true)] eq_refl eq_refl).
+    vm_compute in H. lia.
+  - apply (ps_unsafe_witness [] (mkG Gccz [0; 1; 2] false) [(mkG Gcz [0; 1] false, true)]).
+    + repeat constructor; cbn; intuition; discriminate.
+    + reflexivity.
+    + vm_compute. lia.
+Qed.
+
+(* for instructions on exactly two qubits both rules coincide *)
+Lemma all_rule_two_qubits g post :
+  length (g_qubits g) = 2 -> can_ps_all g post = can_ps g post.
+Proof.
+  unfold can_ps_all, can_ps, count_touched, multib. intros L.
+  destruct (g_qubits g) as [|a [|b [|]]]; try discriminate. cbn.
+  destruct (touchedb post a), (touchedb post b); reflexivity.
 Qed.
